@@ -161,4 +161,45 @@ func WriteObjectWithSize
   ensures forall x Int :: x != writer ==> sel(io.wdata, x) == sel(old(io.wdata), x) && sel(io.wlen, x) == sel(old(io.wlen), x)
   ensures forall i Int :: i < old(sel(io.wlen, writer)) ==> sel(sel(io.wdata, writer), i) == sel(sel(old(io.wdata), writer), i)
   ensures r0 == nil ==> sel(io.wlen, writer) >= old(sel(io.wlen, writer)) + (lenType == serializer.SeriLengthPrefixTypeAsByte ? 1 : (lenType == serializer.SeriLengthPrefixTypeAsUint16 ? 2 : (lenType == serializer.SeriLengthPrefixTypeAsUint32 ? 4 : 8))) && sizeprefix(sel(io.wdata, writer), old(sel(io.wlen, writer)), lenType) == sel(io.wlen, writer) - old(sel(io.wlen, writer)) - (lenType == serializer.SeriLengthPrefixTypeAsByte ? 1 : (lenType == serializer.SeriLengthPrefixTypeAsUint16 ? 2 : (lenType == serializer.SeriLengthPrefixTypeAsUint32 ? 4 : 8)))
+
+-- seeking helpers over the stream model (the position of a written stream is io.wlen)
+func Offset
+  requires seeker != nil
+  modifies ghost(io.wlen)
+  ensures err == nil ==> offset == old(sel(io.wlen, seeker))
+  ensures err == nil ==> io.wlen == old(io.wlen)
+
+func Skip
+  requires seeker != nil
+  modifies ghost(io.wlen)
+  ensures forall x Int :: x != seeker ==> sel(io.wlen, x) == sel(old(io.wlen), x)
+  ensures err == nil ==> newOffset == old(sel(io.wlen, seeker)) + offset && sel(io.wlen, seeker) == newOffset
+
+func GoTo
+  requires seeker != nil
+  modifies ghost(io.wlen)
+  ensures forall x Int :: x != seeker ==> sel(io.wlen, x) == sel(old(io.wlen), x)
+  ensures err == nil ==> newOffset == offset && sel(io.wlen, seeker) == offset
+
+-- WriteCollection: a placeholder for the element count, the elements (written by the callback, which reports how many),
+-- then the count is patched into the placeholder and the stream is left where the callback left it, so that whatever
+-- the caller writes next follows the collection. (the elements the callback wrote stay as they are: the patch writes
+-- exactly the prefix bytes - Writer.Write's model does not say so, which is why this is not a postcondition here)
+global cbcount Int      -- what the callback reported (ghost)
+global cbend Int        -- the position at which the callback left the stream (ghost)
+func WriteCollection
+  requires writer != nil && typeof(writer) != typeid(*bytes.Buffer) && writeCallback != nil
+  requires (lenType == serializer.SeriLengthPrefixTypeAsByte || lenType == serializer.SeriLengthPrefixTypeAsUint16 || lenType == serializer.SeriLengthPrefixTypeAsUint32 || lenType == serializer.SeriLengthPrefixTypeAsUint64)
+  callback writeCallback() (n, e)
+    modifies ghost(io.wdata), ghost(io.wlen)
+    ensures e == nil ==> n >= 0
+  modifies ghost(io.wdata), ghost(io.wlen), ghost(cbcount), ghost(cbend)
+  ghost after call WriteCollection#writeCallback: cbcount = r0
+  ghost after call WriteCollection#writeCallback: cbend = sel(io.wlen, writer)
+  -- the count the callback reported sits where the collection starts ...
+  ensures r0 == nil ==> sizeprefix(sel(io.wdata, writer), old(sel(io.wlen, writer)), lenType) == cbcount
+  -- ... and the stream continues behind the last element
+  ensures r0 == nil ==> sel(io.wlen, writer) == cbend
+  -- a count that does not fit the prefix is an error
+  ensures cbcount > (lenType == serializer.SeriLengthPrefixTypeAsByte ? 255 : (lenType == serializer.SeriLengthPrefixTypeAsUint16 ? 65535 : (lenType == serializer.SeriLengthPrefixTypeAsUint32 ? 4294967295 : MaxInt64))) ==> r0 != nil
 @*/
